@@ -65,6 +65,14 @@ pub struct SimCfg {
     pub sigma: f64,
     pub demand: f64,
     pub center: u32,
+    /// start time of the environment and whether trading is enabled (a tenth of the configurations run with trading off)
+    #[serde(default)]
+    pub t0: u64,
+    #[serde(default = "yes")]
+    pub trading: bool,
+}
+fn yes() -> bool {
+    true
 }
 
 fn noise(c: &SimCfg, tick: u32) -> NoiseAgentParams {
@@ -104,49 +112,49 @@ pub fn run_sim(c: &SimCfg, progress: bool) -> (u64, u64, u64, u64) {
     let t = c.ticks[0];
     match c.composition {
         0 => {
-            let mut env: Env = Env::new(0, t, c.step_size, true);
+            let mut env: Env = Env::new(c.t0, t, c.step_size, c.trading);
             let mut s = SetR { a: rnd(c, t) };
             sim_runner(&mut env, &mut s, c.seed, c.n_steps, progress);
             digest_env(&env)
         }
         1 => {
-            let mut env: Env = Env::new(0, t, c.step_size, true);
+            let mut env: Env = Env::new(c.t0, t, c.step_size, c.trading);
             let mut s = SetRN { a: rnd(c, t), b: NoiseAgent::new(1000, c.n_agents, noise(c, t)) };
             sim_runner(&mut env, &mut s, c.seed, c.n_steps, progress);
             digest_env(&env)
         }
         2 => {
-            let mut env: Env = Env::new(0, t, c.step_size, true);
+            let mut env: Env = Env::new(c.t0, t, c.step_size, c.trading);
             let mut s = SetRNM { a: rnd(c, t), b: NoiseAgent::new(1000, c.n_agents, noise(c, t)), c: MomentumAgent::new(2000, c.n_agents, mom(c, t)) };
             sim_runner(&mut env, &mut s, c.seed, c.n_steps, progress);
             digest_env(&env)
         }
         3 => {
-            let mut env: Env = Env::new(0, t, c.step_size, true);
+            let mut env: Env = Env::new(c.t0, t, c.step_size, c.trading);
             let mut s = SetNested { inner: SetRN { a: rnd(c, t), b: NoiseAgent::new(1000, c.n_agents, noise(c, t)) }, c: MomentumAgent::new(2000, c.n_agents, mom(c, t)), d: rnd(c, t) };
             sim_runner(&mut env, &mut s, c.seed, c.n_steps, progress);
             digest_env(&env)
         }
         4 => {
-            let mut env: MarketEnv<2, 10> = MarketEnv::new(0, [c.ticks[0], c.ticks[1]], c.step_size, true);
+            let mut env: MarketEnv<2, 10> = MarketEnv::new(c.t0, [c.ticks[0], c.ticks[1]], c.step_size, c.trading);
             let mut s = MSetRN { a: mrnd(c, 0), b: NoiseMarketAgent::new(1, 1000, c.n_agents, noise(c, c.ticks[1])) };
             market_sim_runner(&mut env, &mut s, c.seed, c.n_steps, progress);
             digest_env(&env)
         }
         5 => {
-            let mut env: MarketEnv<2, 10> = MarketEnv::new(0, [c.ticks[0], c.ticks[1]], c.step_size, true);
+            let mut env: MarketEnv<2, 10> = MarketEnv::new(c.t0, [c.ticks[0], c.ticks[1]], c.step_size, c.trading);
             let mut s = MSetAll { a: mrnd(c, 0), b: NoiseMarketAgent::new(0, 1000, c.n_agents, noise(c, c.ticks[0])), c: MomentumMarketAgent::new(2000, c.n_agents, 1, mom(c, c.ticks[1])), d: mrnd(c, 1) };
             market_sim_runner(&mut env, &mut s, c.seed, c.n_steps, progress);
             digest_env(&env)
         }
         6 => {
-            let mut env: MarketEnv<2, 10> = MarketEnv::new(0, [c.ticks[0], c.ticks[1]], c.step_size, true);
+            let mut env: MarketEnv<2, 10> = MarketEnv::new(c.t0, [c.ticks[0], c.ticks[1]], c.step_size, c.trading);
             let mut s = MSetNested { inner: MSetRN { a: mrnd(c, 1), b: NoiseMarketAgent::new(0, 1000, c.n_agents, noise(c, c.ticks[0])) }, c: MomentumMarketAgent::new(2000, c.n_agents, 0, mom(c, c.ticks[0])) };
             market_sim_runner(&mut env, &mut s, c.seed, c.n_steps, progress);
             digest_env(&env)
         }
         _ => {
-            let mut env: MarketEnv<3, 5> = MarketEnv::new(0, [c.ticks[0], c.ticks[1], c.ticks[2]], c.step_size, true);
+            let mut env: MarketEnv<3, 5> = MarketEnv::new(c.t0, [c.ticks[0], c.ticks[1], c.ticks[2]], c.step_size, c.trading);
             let mut s = MSetAll { a: mrnd(c, 2), b: NoiseMarketAgent::new(0, 1000, c.n_agents, noise(c, c.ticks[0])), c: MomentumMarketAgent::new(2000, c.n_agents, 1, mom(c, c.ticks[1])), d: mrnd(c, 1) };
             market_sim_runner(&mut env, &mut s, c.seed, c.n_steps, progress);
             digest_env(&env)
@@ -172,6 +180,8 @@ pub fn random_cfg(rng: &mut Sm, i: usize) -> SimCfg {
             sigma: *rng.pick(&[0.5, 1.0]),
             demand: *rng.pick(&[1.0, 10.0]),
             center: rng.range(500, 20_000) as u32,
+            t0: 0,
+            trading: true,
         };
     }
     SimCfg {
@@ -189,6 +199,8 @@ pub fn random_cfg(rng: &mut Sm, i: usize) -> SimCfg {
         sigma: *rng.pick(&[0.5, 1.0, 10.0]),
         demand: *rng.pick(&[1.0, 10.0]),
         center: rng.range(500, 20_000) as u32,
+        t0: if rng.chance(0.3) { rng.below(1 << 40) } else { 0 },
+        trading: !rng.chance(0.1),
     }
 }
 
